@@ -96,12 +96,12 @@ Mutations ==
     [name |-> "mode-windowtype-1", s |-> [B0 EXCEPT !.modes[1].wt = 1]],
     [name |-> "mode-transformtype-1", s |-> [B0 EXCEPT !.modes[1].tt = 1]] }
 
-VarBook(dim, mt) == [dim |-> dim, entries |-> 4, ordered |-> 1, sparse |-> 0, lens |-> <<1, 2, 3, 3>>, maptype |-> mt, qmin |-> PackedInt(0), qdelta |-> PackedInt(1), qbits |-> 2, qseq |-> 0,
+VarBook(dim, mt) == [dim |-> dim, entries |-> 4, ordered |-> 1, sparse |-> 0, lens |-> <<1, 2, 3, 3>>, maptype |-> mt, qmin |-> PackedInt(-1), qdelta |-> PackedInt(2), qbits |-> 2, qseq |-> 0,
                      quant |-> IF mt = 1 THEN [i \in 1..QuantVals1(4, dim) |-> i % 3] ELSE <<>>]
 \* residue decode: variable-length classification book, two classes with different cascades (class 1: stage 0, class 2: stage 1), fixed- and variable-length value books
 ResSetup(ch, e0, e1, rt, psize, coupled) ==
   [ch |-> ch, rate |-> 44100, e0 |-> e0, e1 |-> e1,
-   books |-> << Full(2, 1), VarBook(2, 0), Lattice(2, 2), VarBook(2, 1), Full(1, 1) >>,
+   books |-> << Full(2, 1), VarBook(2, 0), [Lattice(2, 2) EXCEPT !.qmin = PackedInt(-2)], VarBook(2, 1), Full(1, 1) >>,        \* value books hold -2..1 and -1, 1, 3: both signs reach the coupling
    floors |-> << [type |-> 1, parts |-> <<0, 1>>, cdim |-> <<2, 1>>, csubs |-> <<0, 1>>, cbook |-> <<0, 4>>, csub |-> << <<0>>, <<1, -1>> >>, mult |-> 2, rb |-> 5, posts |-> <<16, 8, 24>>] >>,
    residues |-> << [type |-> rt, begin |-> 0, end |-> Pow2(e1), psize |-> psize, nclass |-> 2, gbook |-> 1, cascade |-> <<1, 2>>, rbooks |-> <<2, 3>>] >>,
    maps |-> << [submaps |-> 1, coupling |-> IF coupled THEN << <<0, 1>> >> ELSE <<>>, mux |-> <<>>, sfloor |-> <<0>>, sres |-> <<0>>] >>, modes |-> Modes]
@@ -114,6 +114,21 @@ Crossed(s) == [s EXCEPT !.residues = s.residues \o << [s.residues[1] EXCEPT !.ca
                         !.modes = << [bf |-> 0, wt |-> 0, tt |-> 0, map |-> 1], [bf |-> 1, wt |-> 0, tt |-> 0, map |-> 0] >>]
 ResCases == { [name |-> "residue-explicit-values", seq |-> TRUE, s |-> [ResSetup(ch, 6, 7, rt, 8, FALSE) EXCEPT !.books[3] = ExplicitVals]] : ch \in {1, 2}, rt \in {0, 1, 2} } \cup
             { [name |-> "residue-crossed-modes", seq |-> FALSE, s |-> Crossed(ResSetup(ch, 6, 7, rt, 4, FALSE))] : ch \in {1, 2}, rt \in {0, 1, 2} } \cup
+            { [name |-> "residue-sequence-books", seq |-> FALSE, s |-> [ResSetup(ch, 6, 7, rt, 8, FALSE) EXCEPT !.books[3] = [Lattice(2, 2) EXCEPT !.qseq = 1, !.qmin = PackedInt(-1)], !.books[4] = [VarBook(4, 1) EXCEPT !.qseq = 1],
+                                                                                                              !.residues[1].cascade = <<3, 2>>, !.residues[1].rbooks = <<2, 3, 3>>]] : ch \in {1, 2}, rt \in {0, 1, 2} } \cup
+            { [name |-> "residue-window", seq |-> FALSE, s |-> [ResSetup(ch, 6, 7, rt, ps, ch = 2) EXCEPT !.residues[1].begin = be[1], !.residues[1].end = be[2]]] :
+                ch \in {1, 2}, rt \in {0, 1, 2}, ps \in {4, 8, 5, 3}, be \in {<<0, 64>>, <<8, 24>>, <<4, 30>>, <<3, 1000>>, <<16, 17>>, <<32, 64>>} } \cup
+            { [name |-> "residue-three-channels", seq |-> FALSE, s |-> [ResSetup(3, 6, 7, rt, 4, FALSE) EXCEPT !.maps[1].coupling = cp, !.residues[1].nclass = 3, !.residues[1].cascade = <<1, 2, 5>>, !.residues[1].rbooks = <<2, 3, 3, 2>>,
+                                                                                                       !.books[2] = [VarBook(1, 0) EXCEPT !.lens = <<1, 2, 2>>, !.entries = 3]]] :
+                rt \in {0, 1, 2}, cp \in { << <<0, 1>>, <<2, 0>> >>, << <<2, 1>>, <<1, 0>> >>, << <<0, 2>> >> } } \cup
+            { [name |-> "residue-unused-floors", seq |-> FALSE, s |-> ResSetup(2, 6, 7, rt, 8, cp), fls |-> << <<1, 0>>, <<0, 1>>, <<0, 0>>, <<1, 1>>, <<0, 1>> >>] : rt \in {0, 1, 2}, cp \in BOOLEAN } \cup
+            { [name |-> "residue-two-submaps", seq |-> FALSE,
+               s |-> LET b == ResSetup(3, 6, 7, rta, 4, FALSE) IN
+                     [b EXCEPT !.floors = << b.floors[1], [b.floors[1] EXCEPT !.mult = 1, !.posts = <<10, 20, 5>>] >>,
+                               !.residues = << b.residues[1], [b.residues[1] EXCEPT !.type = rtb, !.psize = 8, !.cascade = <<2, 1>>, !.rbooks = <<3, 2>>] >>,
+                               !.maps = << [submaps |-> 2, coupling |-> cp, mux |-> <<0, 1, 0>>, sfloor |-> <<0, 1>>, sres |-> <<0, 1>>] >>],
+               fls |-> << <<1, 1, 1>>, <<1, 0, 1>>, <<0, 1, 0>>, <<0, 0, 1>>, <<1, 1, 0>> >>] :
+                rta \in {0, 1, 2}, rtb \in {0, 1, 2}, cp \in { <<>>, << <<0, 2>> >>, << <<0, 1>> >>, << <<1, 2>>, <<0, 1>> >> } } \cup
             { [name |-> "residue-dim-not-dividing", seq |-> FALSE, s |-> [ResSetup(ch, 6, 7, rt, 8, FALSE) EXCEPT !.books[3] = Lattice(2, dd[1]), !.books[4] = VarBook(dd[2], 1)]] :
                 ch \in {1, 2}, rt \in {0, 1, 2}, dd \in {<<3, 5>>, <<100, 3>>, <<7, 1000>>, <<16, 12>>} } \cup
             { [name |-> "residue", seq |-> FALSE, s |-> ResSetup(ch, 6, e1, rt, ps, cp)] : ch \in {1, 2}, e1 \in {6, 7}, rt \in {0, 1, 2}, ps \in {4, 8}, cp \in {FALSE, TRUE} }
@@ -127,16 +142,27 @@ Spec == Init /\ [][Next]_vars
 \* with every packet: what the floor of the LAST channel must decode to (posts after unwrapping, table index per bin)
 FloorOf(s, mode) == s.floors[s.maps[s.modes[mode + 1].map + 1].sfloor[1] + 1]
 HalfOf(s, mode) == Pow2(IF s.modes[mode + 1].bf = 1 THEN s.e1 ELSE s.e0) \div 2
-FP(s, mode, lw, nw, salt) == [W |-> s.modes[mode + 1].bf, ns |-> 1, f |-> FullPacket(s, mode, lw, nw, salt),
-                              fit |-> Floor1Fit(s, FloorOf(s, mode), salt + s.ch), yc |-> Floor1Curve(s, FloorOf(s, mode), salt + s.ch, HalfOf(s, mode))]
-FullAudio(s) == << FP(s, 0, 0, 0, 1), FP(s, 1, 0, 1, 2), FP(s, 1, 1, 0, 3), FP(s, 0, 0, 0, 4), FP(s, 0, 0, 0, 5) >>
+MapOf(s, mode) == s.maps[s.modes[mode + 1].map + 1]
+Ones(n) == [i \in 1..n |-> 1]
+\* the floor whose integer domain is probed is the one decoded last: that of the last channel, if it is in use
+LastFloor(s, mode) == s.floors[MapOf(s, mode).sfloor[SubmapOf(MapOf(s, mode), s.ch) + 1] + 1]
+FP(s, mode, lw, nw, salt, fl) == [W |-> s.modes[mode + 1].bf, ns |-> 1, f |-> FullPacket(s, mode, lw, nw, salt, fl),
+                                  fit |-> IF fl[s.ch] = 1 THEN Floor1Fit(s, LastFloor(s, mode), salt + s.ch) ELSE <<>>,
+                                  yc |-> IF fl[s.ch] = 1 THEN Floor1Curve(s, LastFloor(s, mode), salt + s.ch, HalfOf(s, mode)) ELSE <<>>,
+                                  rv |-> PacketResidue(s, mode, salt, fl), cv |-> PacketSpectrum(s, mode, salt, fl)]
+FullAudio(s, fls) == << FP(s, 0, 0, 0, 1, fls[1]), FP(s, 1, 0, 1, 2, fls[2]), FP(s, 1, 1, 0, 3, fls[3]), FP(s, 0, 0, 0, 4, fls[4]), FP(s, 0, 0, 0, 5, fls[5]) >>
+\* the twin needs the packets only
+FPbits(s, mode, lw, nw, salt, fl) == [W |-> s.modes[mode + 1].bf, ns |-> 1, f |-> FullPacket(s, mode, lw, nw, salt, fl)]
+TwinAudio(s, fls) == << FPbits(s, 0, 0, 0, 1, fls[1]), FPbits(s, 1, 0, 1, 2, fls[2]), FPbits(s, 1, 1, 0, 3, fls[3]), FPbits(s, 0, 0, 0, 4, fls[4]), FPbits(s, 0, 0, 0, 5, fls[5]) >>
+\* floor flags of the five packets of a case: all in use unless the case says otherwise
+Fls(cs) == IF "fls" \in DOMAIN cs THEN cs.fls ELSE [k \in 1..5 |-> Ones(cs.s.ch)]
 \* the same classes and the same residue values, but one classification word per partition instead of one per pair: an identical spectrum through a different layout
 Twin(s) == IF Family = "residue" /\ c.seq THEN [s EXCEPT !.books[3] = SequenceVals] ELSE [s EXCEPT !.residues[1].gbook = 4]
-Audio(s) == IF Family = "residue" THEN FullAudio(s) ELSE IF Len(s.modes) >= 2 /\ s.ch >= 1 /\ s.ch <= 255 /\ \A i \in 1..Len(s.modes) : s.modes[i].map + 1 <= Len(s.maps) /\ \A m \in 1..Len(s.maps) : Len(s.maps[m].sfloor) >= 1 /\ \A j \in 1..Len(s.maps[m].sfloor) : s.maps[m].sfloor[j] + 1 <= Len(s.floors)
+Audio(s) == IF Family = "residue" THEN FullAudio(s, Fls(c)) ELSE IF Len(s.modes) >= 2 /\ s.ch >= 1 /\ s.ch <= 255 /\ \A i \in 1..Len(s.modes) : s.modes[i].map + 1 <= Len(s.maps) /\ \A m \in 1..Len(s.maps) : Len(s.maps[m].sfloor) >= 1 /\ \A j \in 1..Len(s.maps[m].sfloor) : s.maps[m].sfloor[j] + 1 <= Len(s.floors)
             THEN << [W |-> 0, f |-> SilentPacket(s, 0, 0, 0)], [W |-> 1, f |-> SilentPacket(s, 1, 0, 1)], [W |-> 1, f |-> SilentPacket(s, 1, 1, 0)], [W |-> 0, f |-> SilentPacket(s, 0, 0, 0)], [W |-> 0, f |-> SilentPacket(s, 0, 0, 0)] >>
             ELSE <<>>
 \* the generator's own sanity: the two well-formed families are well-formed, every mutation of the third is exactly one field away and most are ill-formed
 FamiliesOK == (Family \in {"sizes", "shapes", "residue"} => SetupOK(c.s))
-Export == done => PrintT("CASE " \o ToJson([name |-> c.name, ok |-> SetupOK(c.s), idok |-> IdOK(c.s), ch |-> c.s.ch, e0 |-> c.s.e0, e1 |-> c.s.e1, id |-> IdFields(c.s), setup |-> SetupFields(c.s), audio |-> Audio(c.s),
-                                              twin |-> IF Family = "residue" THEN [ok |-> SetupOK(Twin(c.s)), setup |-> SetupFields(Twin(c.s)), audio |-> FullAudio(Twin(c.s))] ELSE [ok |-> FALSE, setup |-> <<>>, audio |-> <<>>]]))
+Export == done => PrintT("CASE " \o ToJson([name |-> c.name, res |-> IF Len(c.s.residues) >= 1 THEN <<c.s.residues[1].type, c.s.residues[1].psize, c.s.residues[1].begin>> ELSE <<>>, ok |-> SetupOK(c.s), idok |-> IdOK(c.s), ch |-> c.s.ch, e0 |-> c.s.e0, e1 |-> c.s.e1, id |-> IdFields(c.s), setup |-> SetupFields(c.s), audio |-> Audio(c.s),
+                                              twin |-> IF Family = "residue" THEN [ok |-> SetupOK(Twin(c.s)), setup |-> SetupFields(Twin(c.s)), audio |-> IF SetupOK(Twin(c.s)) THEN TwinAudio(Twin(c.s), Fls(c)) ELSE <<>>] ELSE [ok |-> FALSE, setup |-> <<>>, audio |-> <<>>]]))
 =============================================================================
